@@ -272,8 +272,22 @@ impl Expr {
 
                 let rhs = rhs.for_type(flags)?;
 
-                lhs.get_output_type(&rhs, op, flags)
-                    .with_context(|| format!("invalid operation: {} {} {}", lhs, op.symbol(), rhs))
+                let output = lhs
+                    .get_output_type(&rhs, op, flags)
+                    .with_context(|| format!("invalid operation: {} {} {}", lhs, op.symbol(), rhs))?;
+
+                // `x op= y` stores the result back into `x`, whose type does not change
+                if op.is_op_assign() && !lhs.eq_complex(&output, &TypecheckFlags::<&ClassType>::classless()) {
+                    bail!(
+                        "invalid operation: {} {} {} yields `{output}`, which cannot be stored back into `{}`",
+                        lhs,
+                        op.symbol(),
+                        rhs,
+                        lhs
+                    )
+                }
+
+                Ok(output)
             }
             Expr::UnaryMinus(val) | Expr::UnaryNot(val) => val.for_type(flags),
             Expr::Callable(CallableContents::Standard { function, .. }) => {
